@@ -270,8 +270,18 @@ func (h *harness) mutantStep(kind, path string) bool {
 		r.Violation("mutant-not-built", kind+": "+err.Error(), nil)
 		return false
 	}
+	return h.judgeInvalid(kind, path, blk, res, nil)
+}
+
+// judgeInvalid submits a block that is not the valid successor and checks that nothing changed.
+func (h *harness) judgeInvalid(kind, path string, blk *types.Block, res store.ExecuteResult, extra map[string]interface{}) bool {
+	r := h.r
+	tip := h.tip()
 	before := h.snap()
 	ctx := map[string]interface{}{"kind": kind, "path": path, "tip": tip, "block": kit.Hex(blk.ToArray())}
+	for k, v := range extra {
+		ctx[k] = v
+	}
 	errs := h.submit(h.main, blk, res, path, true)
 	r.Eval(1)
 	r.Distinct("mutant", kind, path, len(errs) > 0, tip, len(blk.Transactions))
@@ -309,6 +319,95 @@ func (h *harness) mutantStep(kind, path string) bool {
 	return true
 }
 
+var staleHeaderKinds = []string{"unsigned", "foreign-signed", "timestamp-equal", "timestamp-earlier", "parent-random", "height+1", "one-signature-short"}
+
+// staleHeaderScenario: (1) a header X for the next height that must be refused is offered through
+// the header path; (2) the honest block of that height is committed; (3) a quorum-signed block
+// naming X as its parent (later timestamp than X, block root = accumulator root with hash(X) as the
+// new leaf, so that only the parent rule can refuse it) is submitted through a block path. Nothing
+// but step (2) may change the ledger: a refused header must not become a usable parent.
+func (h *harness) staleHeaderScenario(kind, path string) bool {
+	r := h.r
+	tip := h.tip()
+	tipHdr := h.chainOf[tip].blk.Header
+	st := h.main.Store
+	if st.GetCurrentHeaderHeight() != st.GetCurrentBlockHeight() {
+		// a header-only mutant holds the next slot of the header index: realign with a valid block first
+		if !h.validStep("consensus") {
+			return false
+		}
+		tip = h.tip()
+		tipHdr = h.chainOf[tip].blk.Header
+	}
+	opt := pk.BlockOpt{TimeDelta: uint32(2 + h.rng.Intn(3))}
+	switch kind {
+	case "unsigned":
+		opt.Signers = []*pk.Key{}
+	case "foreign-signed":
+		opt.Signers = h.foreign
+	case "one-signature-short":
+		opt.Signers = []*pk.Key{} // the legacy rule asks for one signature of four: one short = none, but bookkeepers listed
+		opt.MutateAfter = func(b *types.Block) { b.Header.Bookkeepers = append(b.Header.Bookkeepers, h.main.Validators[0].Pub) }
+	case "timestamp-equal":
+		opt.Mutate = func(hd *types.Header) { hd.Timestamp = tipHdr.Timestamp }
+	case "timestamp-earlier":
+		opt.Mutate = func(hd *types.Header) { hd.Timestamp = tipHdr.Timestamp - 1 - uint32(h.rng.Intn(20)) }
+	case "parent-random":
+		opt.Mutate = func(hd *types.Header) { h.rng.Read(hd.PrevBlockHash[:]) }
+	case "height+1":
+		opt.Mutate = func(hd *types.Header) { hd.Height++ }
+	}
+	h.txSeq++
+	xb, _, err := h.main.BuildBlock([]*types.Transaction{h.main.InvokeTx(probe.Address, probe.Method, probe.Encode(probe.Script{probe.Put([]byte("x"), []byte(fmt.Sprint(h.txSeq)))}))}, opt)
+	if err == nil {
+		xb, err = pk.Reparse(xb)
+	}
+	if err != nil {
+		r.Violation("mutant-not-built", "stale header "+kind+": "+err.Error(), nil)
+		return false
+	}
+	X := xb.Header
+	before := h.snap()
+	hdrBefore := st.GetCurrentHeaderHeight()
+	herr := st.AddHeaders([]*types.Header{X})
+	r.Eval(1)
+	r.Distinct("stale-header-offer", kind, tip)
+	ctx := map[string]interface{}{"kind": "refused-header:" + kind, "tip": tip, "header": kit.Hex(X.ToArray())}
+	if herr == nil || st.GetCurrentHeaderHeight() != hdrBefore || h.snap() != before {
+		r.Violation("invalid-header-accepted:"+kind, fmt.Sprintf("header path: %s header for height %d: err=%v, header height %d -> %d", kind, X.Height, herr, hdrBefore, st.GetCurrentHeaderHeight()), ctx)
+		return false
+	}
+	r.Count("stale_header_refused", 1)
+	// (2) the honest block of that height
+	if !h.validStep([]string{"consensus", "sync"}[h.rng.Intn(2)]) {
+		return false
+	}
+	// (3) a child of the refused header
+	tip = h.tip()
+	tipHdr = h.chainOf[tip].blk.Header
+	xHash := X.Hash()
+	h.txSeq++
+	child, res, err := h.main.BuildBlock([]*types.Transaction{h.main.InvokeTx(probe.Address, probe.Method, probe.Encode(probe.Script{probe.Put([]byte("y"), []byte(fmt.Sprint(h.txSeq)))}))},
+		pk.BlockOpt{Mutate: func(hd *types.Header) {
+			hd.PrevBlockHash = xHash
+			ts := X.Timestamp
+			if tipHdr.Timestamp > ts {
+				ts = tipHdr.Timestamp
+			}
+			hd.Timestamp = ts + 1 + uint32(h.rng.Intn(3))
+			hd.BlockRoot = st.GetBlockRootWithPreBlockHashes(tip+1, []common.Uint256{xHash})
+		}})
+	if err == nil {
+		child, err = pk.Reparse(child)
+	}
+	if err != nil {
+		r.Violation("mutant-not-built", "child of stale header "+kind+": "+err.Error(), nil)
+		return false
+	}
+	r.Count("stale_header_child_"+path, 1)
+	return h.judgeInvalid("child-of-refused-header:"+kind, path, child, res, map[string]interface{}{"refused_header": kit.Hex(X.ToArray())})
+}
+
 func openPair(r *kit.Run, name string, withTwin bool) (*harness, func()) {
 	probe.Register()
 	vals := pk.SortKeys(pk.NewKeys(r.Rand("validators-"+name), 4))
@@ -343,7 +442,7 @@ func openPair(r *kit.Run, name string, withTwin bool) (*harness, func()) {
 func TestC13(t *testing.T) {
 	r := kit.Start(t, "C13", "exploration")
 	defer r.Finish()
-	r.Rule("sequences of 12 submissions on real ledgers (a fresh ledger every 25 sequences): each submission is the valid successor (40%) or one of 14 mutant kinds, pushed through ExecuteBlock+SubmitBlock or AddHeaders+AddBlock; evaluation = one submission; distinct = (kind, path, refused-with-error?, tx count, tip height)")
+	r.Rule("sequences of 12 submissions on real ledgers (a fresh ledger every 25 sequences): each submission is the valid successor (38%), one of 14 mutant kinds, or a 3-step scenario (a header of 7 refused kinds offered through AddHeaders, the honest block, then a quorum-signed child naming the refused header as parent with a block root computed over it), pushed through ExecuteBlock+SubmitBlock or AddHeaders+AddBlock; evaluation = one submission; distinct = (kind, path, refused-with-error?, tx count, tip height)")
 	r.Assume("'changes the ledger' = current block height/hash, state root, lookups of committed blocks/transactions, and the accumulators as observed through a twin ledger; a header accepted by AddHeaders without its block is not a commit")
 	r.Assume("a submission at an already committed height may return nil (ignored) or an error; both count as 'changes nothing'")
 	nSeq := r.N(200, 10000)
@@ -360,8 +459,10 @@ func TestC13(t *testing.T) {
 		for i := 0; i < 12; i++ {
 			path := []string{"consensus", "sync"}[h.rng.Intn(2)]
 			ok := true
-			if h.rng.Intn(100) < 40 {
+			if x := h.rng.Intn(100); x < 38 {
 				ok = h.validStep(path)
+			} else if x < 46 {
+				ok = h.staleHeaderScenario(staleHeaderKinds[h.rng.Intn(len(staleHeaderKinds))], path)
 			} else {
 				ok = h.mutantStep(mutantKinds[h.rng.Intn(len(mutantKinds))], path)
 			}
@@ -384,6 +485,9 @@ func TestC13(t *testing.T) {
 	for _, k := range mutantKinds {
 		r.Require("mutant_"+k, nSeq/10)
 	}
+	r.Require("stale_header_refused", nSeq/3)
+	r.Require("stale_header_child_consensus", nSeq/8)
+	r.Require("stale_header_child_sync", nSeq/8)
 	r.Require("accepted_consensus", nSeq)
 	r.Require("accepted_sync", nSeq)
 	r.Require("twin_agreements", nSeq*2)
